@@ -307,7 +307,7 @@ package proxy
 // header is named in Connection (so the reverse proxy's hop-by-hop removal keeps them all).
 //@ func (d *Director) DirectorFunc$1(req *http.Request)
 //@   modifies req.URL.Scheme, req.URL.Host, req.URL.Path, req.URL.RawQuery, req.Host, hdrmap(req.Header)
-//@   ensures [C12] bare_target_keeps_path_and_query: target.Path == "" && target.RawQuery == "" && hasPrefix(old(req.URL.Path), "/") ==> req.URL.Path == old(req.URL.Path) && req.URL.RawQuery == old(req.URL.RawQuery)
+//@   ensures [C12 C01 C13] bare_target_keeps_path_and_query: target.Path == "" && target.RawQuery == "" && hasPrefix(old(req.URL.Path), "/") ==> req.URL.Path == old(req.URL.Path) && req.URL.RawQuery == old(req.URL.RawQuery)
 //@   ensures [C12] covered_headers_untouched: forall n string :: n != "Connection" && n != "User-Agent" && n != "X-Forwarded-Host" ==> (n in req.Header) == old(n in req.Header) && req.Header[n] == old(req.Header[n])
 //@   ensures [C12 C03] no_covered_header_is_hop_by_hop: forall i, k :: 0 <= i && i < len(req.Header["Connection"]) && 0 <= k && k < len(signedHeaders) ==> !connNames(req.Header["Connection"][i], signedHeaders[k])
 //@   ensures [C12] no_signature_header_is_hop_by_hop: forall i :: 0 <= i && i < len(req.Header["Connection"]) ==> !connNames(req.Header["Connection"][i], "Sso-Signature") && !connNames(req.Header["Connection"][i], "Kid") && !connNames(req.Header["Connection"][i], "Gap-Signature")
